@@ -51,6 +51,12 @@ CHECKS['C15']=dict(level='exploration', ref='4.15', technique='deterministic sim
 CHECKS['C18']=dict(level='exploration', ref='4.18', technique='deterministic simulation: SMSC stub emits submit responses and delivery receipts in a seed-chosen network order (receipts may overtake responses); ESME extracts with the real extractors and correlates by id; exactly-once correlation oracle',
    text='Receipt texts are built from the eight standard keys in a seed-chosen order, subset and spelling (SMGP: both spellings, ten arbitrary id octets), values also longer than the field width; they travel as deliver PDUs interleaved with the submit responses; every message must be matched with exactly one receipt and every extracted field must equal the characters between its colon and the next space (SMGP: cut to the field width, id as hex). CMPP status-report bodies round-trip through their encoder and decoder inside deliver PDUs.',
    note='8! orders x 2^8 subsets x values are sampled, not enumerated; values contain no colon so that they cannot spell a key token.')
+CHECKS['C12']=dict(level='exploration', ref='4.12', technique='deterministic simulation of call histories with buffer-reuse faults: zero-copy Peek views scribbled after decode and destroyed by the next fill, outputs scribbled, pooled buffers poisoned on release, pool hand-off between seeded tasks; snapshot-vs-later-state and sequential-reference oracles',
+   text='1..4 tasks run histories of 1..1000 library calls (decode straight from the frame extractor\'s zero-copy view, encode, String, split, header parse, pooled UCS-2 conversion, receipt extraction) on their own values; every input view is overwritten right after the decode, a second output of every encode is overwritten, every pooled buffer is filled with 0xA5 when released, and the scheduler switches tasks at the pool touch points. Every earlier result must still equal its deep snapshot after later steps and must equal the result of a sequential fault-free pass.',
+   note='Strings are cloned in snapshots so that a string sharing memory with a reused buffer is caught; String() is exercised on PDUs without optional parameters (their rendering iterates a Go map).')
+CHECKS['C13']=dict(level='exploration', ref='4.13', technique='deterministic simulation: seeded cooperative scheduler over 2..64 tasks (incl. adopted errgroup workers) with every result compared to a sequential reference pass; plus a free-running race-detector leg (GOMAXPROCS 1/4/16, seeded Gosched at the yield sites)',
+   text='Leg A: 2..64 tasks each run a seeded sequence of library calls on their own values; the scheduler chooses the running task at every pool touch point and every result must equal the sequential pass (no panic, all tasks finish). Leg B: the same seeded workloads run on real threads under the race detector at GOMAXPROCS 1, 4 and 16; a race report or a result differing from the sequential pass is a violation. Leg B observes real executions whose interleaving the simulator does not decide; it is the decision procedure for the data-race clause.',
+   note='Leg A replays exactly; leg B failures replay with high probability only (workload seed + race log). Between two yield sites a task runs atomically in leg A.')
 PENDING = {}
 def load_extra():
     try:
